@@ -59,9 +59,8 @@ def main():
         tmp = tempfile.mkdtemp(prefix="eudoxia-mut-", dir="/tmp")
         try:
             sh(f"git -C /repo archive HEAD | tar -x -C {tmp}")
-            r = sh(f"git apply --unsafe-paths --directory={tmp} {patch} 2>&1 || (cd {tmp} && patch -p1 < {patch})")
-            chk = sh(f"cd {tmp} && git init -q . 2>/dev/null; true")
-            applied = sh(f"cd {tmp} && diff -rq /repo/eudoxia {tmp}/eudoxia | grep -v __pycache__ | head -5").stdout.strip()
+            r = sh(f"cd {tmp} && git init -q . && git apply {patch} 2>&1")
+            applied = r.returncode == 0 and sh(f"cd {tmp} && diff -rq /repo/eudoxia {tmp}/eudoxia | grep -v __pycache__ | head -5").stdout.strip()
             if not applied:
                 print(f"{name}: PATCH DID NOT APPLY\n{r.stdout[-400:]}")
                 summary.append((name, "not-applied"))
